@@ -1,6 +1,7 @@
 #include <AIToolbox/Factored/Utils/FasterTrie.hpp>
 
 #include <algorithm>
+#include <stdexcept>
 
 #include <AIToolbox/Seeder.hpp>
 
@@ -22,11 +23,16 @@ namespace AIToolbox::Factored {
     }
 
     size_t FasterTrie::insert(PartialFactors pf) {
+        // Entries are bucketed by their first key-value pair.
+        if (pf.first.empty())
+            throw std::invalid_argument("FasterTrie cannot store a key which contains no factors!");
         keys_[pf.first[0]][pf.second[0]].emplace_back(counter_, std::move(pf));
         return counter_++;
     }
 
     void FasterTrie::erase(const size_t id, const PartialFactors & pf) {
+        // Empty keys are never stored.
+        if (pf.first.empty()) return;
         // We don't care about ordering here.
         auto & keys = keys_[pf.first[0]][pf.second[0]];
         for (size_t i = 0; i < keys.size(); ++i) {
